@@ -112,7 +112,7 @@ __CPROVER_requires(__CPROVER_is_fresh(transit_event_p, sizeof(TE)) && __CPROVER_
 __CPROVER_requires(logger->pattern_formatter == NULL || __CPROVER_is_fresh(logger->pattern_formatter, sizeof(PFm)))
 __CPROVER_assigns(transit_event_p->logger_base->pattern_formatter)
 __CPROVER_ensures(RET ==> (transit_event_p->logger_base->pattern_formatter == logger->pattern_formatter && logger->pattern_formatter != NULL && logger->pattern_formatter->g_options == transit_event_p->logger_base->pattern_formatter_options)) /*@ C12,C16 "a formatter adopted from another logger was built from options equal to this logger's own (unit PFO.equals says what equal means)" */
-__CPROVER_ensures(!RET ==> transit_event_p->logger_base->pattern_formatter == NULL) /*@ C12 "no formatter is adopted from a logger with different options" */
+__CPROVER_ensures(!RET ==> (transit_event_p->logger_base->pattern_formatter == NULL || transit_event_p->logger_base->pattern_formatter->g_options == transit_event_p->logger_base->pattern_formatter_options)) /*@ C12 "no formatter is adopted from a logger with different options" */
 ''')],
     harness='  TE* te; LB* l; BW_share_pred(te, l);', dropped=['shared_ptr ownership', 'options compared by content id (operator==: unit PFO.equals)'], trusted=[], min_obligations=6)
 UNITS.append(fi_lambda)
